@@ -5,6 +5,7 @@ import GlareModel.Core.Cast
 import GlareModel.Core.SemParse
 import GlareModel.Core.Like
 import GlareModel.Core.Str
+import GlareModel.Core.Csv
 
 /-! `gmodel`: line-protocol driver. Reads `case <n> <component> ...` lines on stdin and
 prints `out <n> ...` lines computed by the code-shaped model. -/
@@ -222,6 +223,29 @@ def runStr (args : List String) : String :=
     | some s, some n => toString (Like.isInfix n s) | _, _ => "bad-case"
   | _ => "bad-case"
 
+/-- `case N csv <delim> <quote> <chunks> <hex>`: the model is chunk independent (theorem), the
+chunk list is still applied so that the executable path is the same as the harness'. -/
+def runCsv (args : List String) (sample : Bool := false) : String :=
+  match args with
+  | [d, q, chunks, h] =>
+    match d.toNat?, q.toNat?, (if h == "-" then some [] else parseHexBytes h) with
+    | some d, some q, some bytes =>
+      let sizes := if chunks == "-" then [] else (chunks.splitOn ",").filterMap String.toNat?
+      let rec cut (bs : List Nat) (i : Nat) (fuel : Nat) : List (List Nat) :=
+        match fuel with
+        | 0 => [bs]
+        | fuel + 1 =>
+          if bs.isEmpty then [] else
+          let n := if sizes.isEmpty then bs.length else max 1 (sizes.getD (i % sizes.length) 1)
+          bs.take n :: cut (bs.drop n) (i + 1) fuel
+      let cs := cut bytes 0 (bytes.length + 1)
+      -- `sample`: complete records only (no end-of-stream flush), as the inference code decodes the sample
+      let recs := if sample then Csv.records (cs.foldl (Csv.decode d q) {}) else Csv.run d q cs
+      if recs.isEmpty then "none" else
+      "|".intercalate (recs.map fun r => ",".intercalate (r.map fun f => if f.isEmpty then "-" else hexOfBytes f))
+    | _, _, _ => "bad-case"
+  | _ => "bad-case"
+
 def step (line : String) : Option String :=
   -- `case N sem <payload>`: the payload keeps its spaces
   match (line.trimAscii.toString.splitOn " ") with
@@ -235,6 +259,8 @@ def step (line : String) : Option String :=
   | "case" :: n :: "sum" :: args => some s!"out {n} {runSum args}"
   | "case" :: n :: "cast" :: args => some s!"out {n} {runCast args}"
   | "case" :: n :: "like" :: args => some s!"out {n} {runLike args}"
+  | "case" :: n :: "csv" :: args => some s!"out {n} {runCsv args}"
+  | "case" :: n :: "csvsample" :: args => some s!"out {n} {runCsv args true}"
   | "case" :: n :: "str" :: args => some s!"out {n} {runStr args}"
   | "case" :: n :: _ => some s!"out {n} bad-component"
   | _ => none
